@@ -101,6 +101,54 @@ ascii_ranges! {
     c04q_atom_char_ascii_60, c04q_bracket_char_ascii_60: 96, 128;
 }
 
+/// Non-ASCII characters are never special: they are emitted unescaped, as their own UTF-8 encoding.
+fn check_non_ascii(c: char) {
+    let config = Config::default();
+    let mut enc = [0u8; 4];
+    let expected = c.encode_utf8(&mut enc).as_bytes().len();
+    let mut out = Buf::new();
+    assert!(Atom::Char(c).fmt_regex(&config, &mut out).is_ok());
+    assert!(out.len == expected, "a non-ASCII literal is emitted unescaped outside a class");
+    let mut k = 0;
+    while k < expected {
+        assert!(out.bytes[k] == enc[k], "... as its own encoding");
+        k += 1;
+    }
+    let mut out2 = Buf::new();
+    assert!(BracketAtom::Char(c).fmt_regex(&mut out2).is_ok());
+    assert!(out2.len == expected, "a non-ASCII literal is emitted unescaped inside a class");
+}
+
+/// every non-ASCII `char`, symbolically
+#[kani::proof]
+#[kani::unwind(20)]
+fn c04t_char_non_ascii_all() {
+    let c: char = kani::any();
+    kani::assume(c as u32 >= 0x80);
+    check_non_ascii(c);
+}
+
+/// a concrete sample of non-ASCII characters: for every character that is special in either position,
+/// the code points in four blocks whose low byte equals it (a truncating cast would confuse them)
+#[kani::proof]
+#[kani::unwind(20)]
+fn c04q_char_non_ascii_low_byte_sample() {
+    let specials = *b"\\.+*?()|[]{}^$-&~";
+    let mut i = 0;
+    while i < specials.len() {
+        let low = specials[i] as u32;
+        let mut block = 1u32;
+        while block <= 4 {
+            let cp = match block { 1 => 0x100, 2 => 0x400, 3 => 0x3000, _ => 0x1F600 } + low;
+            if let Some(c) = char::from_u32(cp) {
+                check_non_ascii(c);
+            }
+            block += 1;
+        }
+        i += 1;
+    }
+}
+
 /// "collating symbols and equivalence classes stand for their literal characters"
 fn check_collating(c: u8) {
     let mut s = String::new();
